@@ -3,8 +3,9 @@ import Py4hwV.Props.C12
 /-
   C14 — agreement of the helper class `FixedPoint` (py4hw/helper.py:461-560; model Helper/FixedPoint.lean with
   `signExtend` GENERATED from helper.py, theorems `C12.fx_add_spec / fx_sub_spec / fx_mult_spec`) with the fixed-point
-  BLOCKS on equal formats: for every format with `int_bits ≥ 1` (for `int_bits = 0` every helper operation raises —
-  C12's finding `fx_iw0_counterexample`) and every pair of raw encodings, `FixedPoint.add/sub/mult` return exactly what
+  BLOCKS on equal formats: for every format with `int_bits ≥ 1` (C12's theorems now hold for `int_bits ≥ 0` too — repo commit
+  b11b379 repaired the former finding C12-fx-iw0 — the hypothesis `1 ≤ q.i` below is kept only because `helper_mult_spec` uses it)
+  and every pair of raw encodings, `FixedPoint.add/sub/mult` return exactly what
   FixedPointAdd/Sub/Mult put on their output wire.  Kept in its own module: it imports C12's whole development.
 -/
 namespace C14
@@ -39,7 +40,7 @@ theorem helper_mult_agrees (q : Lib.Fxp.Fmt) (a b : Nat) (hi : 1 ≤ q.i) (ha : 
     Helper.FixedPoint.mult (hfmt q) a b = some ((Lib.Fxp.mult q.width q.width q.width q q q a b : Nat) : Int) := by
   have hw : 1 ≤ q.width := by unfold Fmt.width; omega
   rw [C12.fx_mult_spec (hfmt q) q.width q.f (hfmt_width q) rfl (by unfold hfmt; simp only; omega)
-        (by unfold hfmt; simp only; omega),
+        (by unfold hfmt; simp only; omega) hw,
       fxpMult_spec_same_format q a b hw ha hb, put_cast, c2Signed_eq _ a ha, c2Signed_eq _ b hb]
 
 /-- … hence the helper's `mult` is the specification too: the exact product truncated to the (common) format -/
